@@ -57,9 +57,14 @@ CHECKS = {
              "specification applied to the operations stamped at or before the sample's time, at the lookup address ip / return-1 / adjusted; uncovered and kernel "
              "frames stay raw; relative address = relative start + offset), C02_later_mmap_irrelevant, C02_cutoff_constant (the `<=` regenerated from the source) and "
              "C02_lookup_addresses. Tied to the code by driving ProcessSampleData::flush_samples_to_profile (samply/src/shared compiled in by #[path]) with generated "
-             "queues/samples whose op timestamps fall before, exactly at and after sample times, and evaluating spec + model in Coq on the serialized stacks.",
-        note="Trusted: Coq kernel; harness h_samply + JSON read-back; C11's model of LibMappings. This is the flush half of C02: the converter's construction of the queue from "
-             "MMAP2/FORK records (relative start from page offset or ELF segments, inheritance across fork) is not covered by this check. jitdump/perf-map tables empty.",
+             "queues/samples whose op timestamps fall before, exactly at and after sample times, and evaluating spec + model in Coq on the serialized stacks. "
+             "Converter level: C02_queue_history (for EVERY record history a process's queue is the mappings announced for its pid since its last exec, after the queue inherited at fork), "
+             "C02_fork_inherits, C02_exec_clears, C02_rel_start_offset / C02_rel_start_segments (relative start = page offset, or SVMA of the file offset minus the image base), "
+             "C02_call_chain_order, C02_e2e_attribution (composition for time-ordered recordings). Tied end to end: generated recordings (mappings added, overlapped, replaced, inherited across fork, "
+             "cleared by exec, stamped before / exactly at / after samples; call chains with leaf/return addresses at range boundaries, unmapped addresses, all context markers; absent binaries and "
+             "an ELF fixture at arbitrary load addresses) -> perf.data -> samply import -> resolved frames, decided by a model-free specification in Coq.",
+        note="Trusted: Coq kernel; harness h_samply + JSON read-back; C11's model of LibMappings; perf.data writer; the ELF program-header reader in vlib/c02e.py (segments are an input of the model). "
+             "Not modelled: jitdump / perf-map side tables, simpleperf symbol tables (case 1), vdso (case 3), PE mappings, DWARF-unwound stack fragments, --fold-recursive-prefix.",
         technique="Coq proof (queue replay = filter by timestamp on ordered queues; composition lemma; refinement to C11's history specification) + differential correspondence run evaluated by vm_compute",
         design="4/C01,C17,C02"),
     "C20": dict(
